@@ -361,6 +361,7 @@ func (d *Device) handleOpenrgb(ctx context.Context, wg *sync.WaitGroup) {
 		log.Info(fmt.Sprintf("[OpenRGB] Cannot connect to server: %s", err), d.logFields(logger.Debug)...)
 		return
 	}
+	defer c.Close()
 
 	log.Info(fmt.Sprintf("[OpenRGB] Connected, finding controller..."), d.logFields(logger.Debug)...)
 
